@@ -32,6 +32,7 @@ type Cfg struct {
 	ReaderBoost    int // multiplier of reader begin/close weights
 	ReopenWeight   int // default 6
 	Faults         int // weight of arming an I/O fault (0 = never)
+	TearMeta       int // weight of tearing the older meta slot between sessions (0 = never)
 }
 
 func DefaultCfg() Cfg {
@@ -222,10 +223,15 @@ func Next(t *rapid.T, e *drv.Env, cfg Cfg) drv.Op {
 		if cfg.ErrProbes {
 			ws = append(ws, weighted{3, drv.OpClosedTxUse})
 		}
+		if cfg.TearMeta > 0 && len(e.RO) == 0 {
+			ws = append(ws, weighted{cfg.TearMeta, drv.OpTearMeta})
+		}
 		k := pick(t, "txop", ws)
 		switch k {
 		case drv.OpArmFault:
 			return drv.Op{Op: k, U: uint64(rapid.IntRange(1, 12).Draw(t, "faultin"))}
+		case drv.OpTearMeta:
+			return drv.Op{Op: k, U: uint64(rapid.IntRange(57, 71).Draw(t, "tearbytes"))}
 		case drv.OpBeginRO:
 			id := 1
 			for e.RO[id] != nil {
@@ -273,7 +279,7 @@ func bucketOp(t *rapid.T, e *drv.Env, cfg Cfg, txid int, m *model.Bucket, readOn
 	nb := len(m.AllPaths()) - 1
 	var ws []weighted
 	if readOnly {
-		ws = []weighted{{10, drv.OpGet}, {4, drv.OpSeq}, {4, drv.OpForEach}, {2, drv.OpForEachBkt}, {2, drv.OpTxForEach}, {2, drv.OpInspect}, {3, drv.OpStatsKeyN}, {3, drv.OpBucketProbe}, {3, drv.OpDumpTx}}
+		ws = []weighted{{10, drv.OpGet}, {4, drv.OpSeq}, {4, drv.OpForEach}, {2, drv.OpForEachBkt}, {2, drv.OpTxForEach}, {2, drv.OpInspect}, {3, drv.OpStatsKeyN}, {3, drv.OpBucketProbe}, {3, drv.OpDumpTx}, {4, drv.OpWriteTo}}
 		if cfg.Cursors {
 			ws = append(ws, weighted{6, drv.OpCursor})
 		}
@@ -302,7 +308,7 @@ func bucketOp(t *rapid.T, e *drv.Env, cfg Cfg, txid int, m *model.Bucket, readOn
 	}
 	op := drv.Op{Op: k, Tx: txid}
 	switch k {
-	case drv.OpTxForEach, drv.OpDumpTx:
+	case drv.OpTxForEach, drv.OpDumpTx, drv.OpWriteTo:
 		return op
 	case drv.OpCreate, drv.OpCreateINE:
 		paths := m.AllPaths()
